@@ -1096,10 +1096,9 @@ int32_t jls_core_fsr(struct jls_core_s * self, uint16_t signal_id, int64_t start
     uint8_t entry_size_bits = jls_datatype_parse_size(signal_def->data_type);
 
     if ((data_length > samples) || (start_sample_id > (samples - data_length))) {  // without int64 overflow
-        JLS_LOGW("rd_fsr %d %s: start=%" PRIi64 " length=%" PRIi64 " > %" PRIi64 " by %" PRIi64,
+        JLS_LOGW("rd_fsr %d %s: start=%" PRIi64 " length=%" PRIi64 " > %" PRIi64,
                  (int) signal_id, signal_def->name,
-                 start_sample_id, data_length, samples,
-                 start_sample_id + data_length - samples);
+                 start_sample_id, data_length, samples);
         return JLS_ERROR_PARAMETER_INVALID;
     }
 
